@@ -8,7 +8,8 @@ statement.  Go `int` = `Int`, `/` and `%` are `Int.tdiv`/`Int.tmod`.
 
 Order conventions
 * `newHost` ranges over a Go map and then `sort.SliceStable`s by `(pieces, ID)`, a total order on
-  distinct IDs → the result does not depend on the iteration order; modelled by `List.mergeSort`.
+  distinct IDs → the result does not depend on the iteration order; modelled by the stable
+  insertion sort `ssort`.
 * `reorderByAffinity`: `sort.SliceStable` with "cores known to the old host first, in the old
   host's order; unknown cores keep their relative order" (for ≤ 20 cores `SliceStable` is one
   insertion sort and the position-dependent comparator `i < j` never swaps).
@@ -39,6 +40,14 @@ def Core.le (a b : Core) : Bool := !b.less a
 
 def isFull (B : Int) (c : Core) : Bool := decide (B ≤ c.pieces) && decide (c.pieces.tmod B = 0)
 
+/-- stable insertion sort (`sort.SliceStable` with a strict-weak-order comparator has exactly one
+    possible result: the stable sorted permutation); structural, so the kernel can evaluate it -/
+def insSorted {α : Type} (le : α → α → Bool) (x : α) : List α → List α
+  | [] => [x]
+  | y :: ys => if le x y then x :: y :: ys else y :: insSorted le x ys
+
+def ssort {α : Type} (le : α → α → Bool) (l : List α) : List α := l.foldr (insSorted le) []
+
 structure Host where
   full : List Core
   frag : List Core
@@ -47,8 +56,8 @@ structure Host where
 /-- `newHost` -/
 def newHost (m : CpuMap) (B : Int) : Host :=
   let cs := m.map fun kv => Core.mk kv.1 kv.2
-  { full := (cs.filter (isFull B)).mergeSort Core.le,
-    frag := (cs.filter fun c => !isFull B c && decide (0 < c.pieces)).mergeSort Core.le }
+  { full := ssort Core.le (cs.filter (isFull B)),
+    frag := ssort Core.le (cs.filter fun c => !isFull B c && decide (0 < c.pieces)) }
 
 /-- `orderMap[id]`: index+1 of `id` in the old host's list, 0 when absent -/
 def orderIdx (old : List Core) (id : String) : Nat :=
@@ -58,7 +67,7 @@ def orderIdx (old : List Core) (id : String) : Nat :=
 
 /-- one `sort.SliceStable(…, sortFunc(orderMap, cores))` of `reorderByAffinity` -/
 def reorder (old new : List Core) : List Core :=
-  (new.filter fun c => orderIdx old c.id != 0).mergeSort (fun a b => decide (orderIdx old a.id ≤ orderIdx old b.id))
+  ssort (fun a b => decide (orderIdx old a.id ≤ orderIdx old b.id)) (new.filter fun c => orderIdx old c.id != 0)
     ++ new.filter fun c => orderIdx old c.id == 0
 
 /-- `getFragmentCPUPlans` (`fragment ≥ 1`) -/
